@@ -1,4 +1,5 @@
 import SpVerif.Lemmas.Hilbert2Curve
+import SpVerif.Lemmas.HilbertN
 /-!
 # C07 — the Hilbert curve mapping is a locality-preserving bijection
 
@@ -7,9 +8,11 @@ Property theorems only (helper lemmas live in `Lemmas/Hilbert2*.lean`).  They ar
 `distance_from_coordinate` in `spatialpandas/spatialindex/hilbert_curve.py`
 (`Model/Hilbert.lean`), for **every** order `p` (unbounded `Nat`; the code is int64).
 
-Not proved here (stated in DESIGN.md / MANIFEST as the remaining gap): the same statements
-for n ∈ {1, 3}, for which only the general executable model `coordN`/`distN` exists and is
-compared with the implementation by the correspondence check.
+For **every dimension n** (the list model `coordN`/`distN` of the same two routines) the two round trips, the ranges and the
+bijection are proved as well (`C07_*_all_n`, lemmas in `Lemmas/HilbertN.lean`): every elementary step of the "undo excess work"
+loops is an involution on word lists, Gray encode / decode are inverse, and the bit transposition is inverse to the
+re-interleaving.  Adjacency, end points, refinement and the identity with the classical recursion are proved for n = 2 only; for
+n ∈ {1, 3} those clauses are compared with the implementation by the correspondence check.
 -/
 namespace SpVerif
 open Hilbert
@@ -68,5 +71,34 @@ theorem C07_refinement (p : Nat) (c : W2) (hc : c.1 < 2 ^ (p+1) ∧ c.2 < 2 ^ (p
 /-! non-vacuity: the hypotheses are met by concrete non-trivial cells -/
 example : (27 : Nat) < 4 ^ 3 ∧ coord2 3 27 = (3, 6) ∧ dist2 3 (3, 6) = 27 := by decide
 example : ((5, 6) : W2).1 < 2 ^ 3 ∧ ((5, 6) : W2).2 < 2 ^ 3 ∧ dist2 3 (5, 6) / 4 = dist2 2 (2, 3) := by decide
+
+/-! ### every dimension -/
+
+/-- distance → coordinates → distance is the identity, for every order and every dimension -/
+theorem C07_roundtrip_cd_all_n (p n h : Nat) (hn : 0 < n) (hh : h < 2 ^ (n * p)) : distN p (coordN p n h) = h :=
+  distN_coordN p n h hn hh
+
+/-- coordinates → distance → coordinates is the identity, for every order `p ≥ 1` and every dimension -/
+theorem C07_roundtrip_dc_all_n (p : Nat) (hp : 1 ≤ p) (X : List Nat) (hn : 0 < X.length) (hX : ∀ x ∈ X, x < 2 ^ p) :
+    coordN p X.length (distN p X) = X :=
+  coordN_distN p hp X hn hX
+
+/-- every distance is mapped to a cell of the `2^p`-per-side grid (one coordinate per dimension), every cell to a distance
+below `2^(n p)` -/
+theorem C07_range_all_n (p n h : Nat) (X : List Nat) :
+    ((coordN p n h).length = n ∧ ∀ x ∈ coordN p n h, x < 2 ^ p) ∧ distN p X < 2 ^ (X.length * p) :=
+  ⟨coordN_range p n h, distN_lt p X⟩
+
+/-- **every cell of the grid is visited exactly once** by the distances `0 … 2^(n p) - 1`: the cell's distance is below
+`2^(n p)`, is mapped to the cell, and no other distance below `2^(n p)` is -/
+theorem C07_bijection_all_n (p : Nat) (hp : 1 ≤ p) (X : List Nat) (hn : 0 < X.length) (hX : ∀ x ∈ X, x < 2 ^ p) :
+    distN p X < 2 ^ (X.length * p) ∧ coordN p X.length (distN p X) = X ∧
+    ∀ h, h < 2 ^ (X.length * p) → coordN p X.length h = X → h = distN p X := by
+  refine ⟨distN_lt p X, coordN_distN p hp X hn hX, ?_⟩
+  intro h hh hc
+  rw [← distN_coordN p X.length h hn hh, hc]
+
+/-! non-vacuity: n = 3, p = 2 -/
+example : coordN 2 3 45 = [3, 3, 3] ∧ distN 2 [3, 3, 3] = 45 := by decide
 
 end SpVerif
